@@ -459,6 +459,9 @@ macro_rules! with_capacity {
             192000 => $f::<{ sample_rate_to_capacity(192000) }>($($args),*),
             17000 => $f::<{ sample_rate_to_capacity(17000) }>($($args),*),
             17067 => $f::<{ sample_rate_to_capacity(17067) }>($($args),*),
+            32000 => $f::<{ sample_rate_to_capacity(32000) }>($($args),*),
+            44100 => $f::<{ sample_rate_to_capacity(44100) }>($($args),*),
+            64000 => $f::<{ sample_rate_to_capacity(64000) }>($($args),*),
             _ => panic!("unsupported ribbon sample rate {}", $fs),
         }
     };
@@ -953,11 +956,13 @@ fn probe_counts_c<const C: usize>(cfg: RibCfg) -> Option<(usize, usize)> {
     Some((l - C, excluded_newest::<C>(&cfg, l)))
 }
 
-const ALL_RATES: [u32; 15] = [100, 334, 500, 1000, 2000, 3500, 4000, 8000, 10000, 17000, 17067, 22050, 48000, 96000, 192000];
+// 32 kHz, 44.1 kHz and 64 kHz added in round 7: with them a count derived from the truncated sample period
+// (T / (1e6 / fs)) is no longer explained by any single time (seeded/ribbon-7A)
+const ALL_RATES: [u32; 18] = [100, 334, 500, 1000, 2000, 3500, 4000, 8000, 10000, 17000, 17067, 22050, 32000, 44100, 48000, 64000, 96000, 192000];
 
 /// The settling skip (C15) and the finger-lift allowance (C16) are times; the statements fix neither their length nor
 /// how a time becomes a sample count. What they do imply is that ONE time, turned into counts by ONE rule, is behind
-/// the counts at every sample rate. The counts are measured behaviourally on correctly sized controllers at the 15
+/// the counts at every sample rate. The counts are measured behaviourally on correctly sized controllers at the 18
 /// instantiated rates (samples before the first press minus the capacity; newest samples without influence on the
 /// value) and must be explained by count = floor(fs*T) + c or ceil(fs*T) + c (c in {-1, 0}, not below 0) for some T.
 fn allowance_consistency(_ctx: &Ctx, rep: &mut Report, prop: &'static str) {
